@@ -96,7 +96,20 @@ pub fn check_state(m: &mut Matcher, vocab: &Vocab, ctx: &mut Ctx, tag: &dyn Fn()
             }
         };
         let check_commit = full_commit || mt || vt || (t as usize * 16 / n) != ((t as usize + 1) * 16 / n);
-        let ct = if check_commit { Some(m.clone().consume_token(t).is_ok()) } else { None };
+        // a commit that fails on a documented resource limit (row/item limits are only enforced on the
+        // commit path) gives no verdict for this token
+        let ct = if check_commit {
+            match m.clone().consume_token(t) {
+                Ok(()) => Some(true),
+                Err(e) if crate::engine::is_limit_error(&e.to_string()) => {
+                    ctx.class("commit_hit_resource_limit");
+                    None
+                }
+                Err(_) => Some(false),
+            }
+        } else {
+            None
+        };
         ctx.eval(1);
         if vocab.bytes(t).len() > 1 && vocab.is_regular(t) {
             if mt {
@@ -206,10 +219,15 @@ pub fn check_sequence(m: &Matcher, vocab: &Vocab, seed: (u16, u16, u16), ctx: &m
     let mut stop_before_failure = c.stop_reason();
     for &t in &seq {
         stop_before_failure = c.stop_reason();
-        if c.consume_token(t).is_ok() {
-            committed += 1;
-        } else {
-            break;
+        match c.consume_token(t) {
+            Ok(()) => committed += 1,
+            Err(e) => {
+                if crate::engine::is_limit_error(&e.to_string()) {
+                    ctx.class("commit_hit_resource_limit");
+                    return Ok(());
+                }
+                break;
+            }
         }
     }
     ctx.eval(1);
@@ -321,6 +339,10 @@ impl Prop for C01 {
                 None => break,
             };
             if let Err(e) = m.consume_token(t) {
+                if crate::engine::is_limit_error(&e.to_string()) {
+                    ctx.class("commit_hit_resource_limit");
+                    return Ok(());
+                }
                 return ctx.fail("C01/mask-token-fails-to-commit", || {
                     format!("{}: committing mask-allowed token {} {:?} failed: {}", tag(), t, esc(vocab.bytes(t)), short_err(&e.to_string()))
                 });
